@@ -315,4 +315,117 @@ example : (SM.St.run [] {} iOps).touched ["A"] = [["A"], ["B"], ["D"]] ∧
 
 end inheritance
 
+
+/-! ## Structure and values together: after a deletion in a base nothing of a derived copy is held
+
+In the combined machine (`Edit/Machine.lean`; `C02.machine_keeps_ci`) a cells identity stands for a
+member `(space, name)`; it exists exactly while the structure has that member.  So in every state with
+the combined invariant – in particular after `del base.f`, `del model.Base`, `remove_bases`, which make
+the DERIVED copies in the sub spaces vanish (`derived_gone_without_definer`) – no element of a pair
+that is no member holds a value, is marked as input, or has a node or an edge in either graph. -/
+section combined
+open MxModel.Exec
+
+/-- **a `(space, name)` that is no cells of the structure holds nothing** -/
+theorem nonmember_holds_nothing (P : Edit.Params) (lt : Node → Node → Prop) (w : Edit.W) (h : Edit.CIW P lt w)
+    (q : SM.Path) (n : String) (hm : w.sm.mem .cells q n = none) :
+    (∀ key : Key, lookup w.ex.data (w.tabs.cid q n, key) = none ∧ (w.tabs.cid q n, key) ∉ w.ex.inputs) ∧
+    (∀ x ∈ w.ex.gn, x.cell ≠ w.tabs.cid q n) ∧
+    (∀ a b, (a, b) ∈ w.ex.ge → a.cell ≠ w.tabs.cid q n ∧ b.cell ≠ w.tabs.cid q n) ∧
+    (∀ e ∈ w.ex.rg, e.2.1 ≠ w.tabs.cid q n) := by
+  have hd : (w.env P).alive (w.tabs.cid q n) = false := by
+    rw [Edit.alive_cid P w h.alloc q n, hm]; rfl
+  obtain ⟨h1, h2, h3, h4⟩ := dead_has_nothing h.ci _ hd
+  exact ⟨fun key => h1 (_, key) rfl, h2, h3, h4⟩
+
+/-- the identity of a member does not change when the structure is edited -/
+theorem identity_stable (P : Edit.Params) (w : Edit.W) (ha : Edit.AllocOK w.tabs w.sm) (op : Edit.Op)
+    (q : SM.Path) (n : String) (hm : (w.sm.mem .cells q n).isSome = true) :
+    (Edit.step P w op).tabs.cid q n = w.tabs.cid q n := by
+  cases op with
+  | struct o =>
+    simp only [Edit.step]
+    split
+    · cases hop : w.sm.apply P.kw o with
+      | none => rfl
+      | some st' => exact (Edit.ext_grow w.tabs st').cid q n (ha.cells q n hm)
+    · rfl
+  | eval q' n' key => simp only [Edit.step]; split <;> rfl
+  | setValue q' n' key v => simp only [Edit.step]; split <;> rfl
+  | clearAt q' n' key => rfl
+  | clear q' n' => rfl
+  | clearAll q' n' => rfl
+
+/-- **`del base.f`** (`del_cells`): the state after it has the invariant, and every `(q, f)` that is no
+member any more – `base` itself unless another base of it defines `f`, and every sub space whose only
+definer was `base` – holds nothing, under the identity it had. -/
+theorem deleted_base_cells_leaves_nothing_in_subs (P : Edit.Params) (lt : Node → Node → Prop)
+    (ho : StrictOrder lt) (w : Edit.W) (p : SM.Path) (name : String) (hw : C02.WF (w.env P) lt)
+    (h : Edit.CIW P lt w) (q : SM.Path)
+    (hgone : (Edit.step P w (.struct (.delCells p name))).sm.mem .cells q name = none) :
+    Edit.CIW P lt (Edit.step P w (.struct (.delCells p name))) ∧
+    (∀ key : Key, lookup (Edit.step P w (.struct (.delCells p name))).ex.data
+        ((Edit.step P w (.struct (.delCells p name))).tabs.cid q name, key) = none) ∧
+    (∀ x ∈ (Edit.step P w (.struct (.delCells p name))).ex.gn,
+        x.cell ≠ (Edit.step P w (.struct (.delCells p name))).tabs.cid q name) := by
+  have h' := C02.machine_keeps_ci P lt ho w (.struct (.delCells p name)) hw h
+  obtain ⟨h1, h2, _, _⟩ := nonmember_holds_nothing P lt _ h' q name hgone
+  exact ⟨h', fun key => (h1 key).1, h2⟩
+
+/-- **`del model.Base`** (`del_defined_space`): nothing of any cells of the deleted space or of a space
+below it is held -/
+theorem deleted_space_leaves_nothing (P : Edit.Params) (lt : Node → Node → Prop) (ho : StrictOrder lt)
+    (w : Edit.W) (p : SM.Path) (hw : C02.WF (w.env P) lt) (h : Edit.CIW P lt w)
+    (hacc : (w.sm.apply P.kw (.delSpace p)).isSome = true) (q : SM.Path) (hq : SM.isPrefix p q = true)
+    (x : String) :
+    Edit.CIW P lt (Edit.step P w (.struct (.delSpace p))) ∧
+    (∀ key : Key, lookup (Edit.step P w (.struct (.delSpace p))).ex.data
+        ((Edit.step P w (.struct (.delSpace p))).tabs.cid q x, key) = none) ∧
+    (∀ y ∈ (Edit.step P w (.struct (.delSpace p))).ex.gn,
+        y.cell ≠ (Edit.step P w (.struct (.delSpace p))).tabs.cid q x) := by
+  have h' := C02.machine_keeps_ci P lt ho w (.struct (.delSpace p)) hw h
+  have hgone : (Edit.step P w (.struct (.delSpace p))).sm.mem .cells q x = none := by
+    cases hop : w.sm.apply P.kw (.delSpace p) with
+    | none => rw [hop] at hacc; cases hacc
+    | some st' =>
+      have hsm : (Edit.step P w (.struct (.delSpace p))).sm = st' := by
+        simp [Edit.step, Edit.supported, hop]
+      rw [hsm]
+      have D := SM.delSpaceOp_spec w.sm st' (Edit.keysOK_of_inv h.inv) p hop
+      apply SM.St.mem_of_not_mem
+      intro hin
+      have := ((D.ids q).mp hin).2
+      rw [hq] at this; cases this
+  obtain ⟨h1, h2, _, _⟩ := nonmember_holds_nothing P lt _ h' q x hgone
+  exact ⟨h', fun key => (h1 key).1, h2⟩
+
+/-- …in every state the combined machine reaches -/
+theorem reachable_nonmembers_hold_nothing (P : Edit.Params) (lt : Node → Node → Prop) (ho : StrictOrder lt)
+    (ops : List Edit.Op) (hadm : Edit.Admissible P lt {} ops) (q : SM.Path) (n : String)
+    (hm : (Edit.run P {} ops).sm.mem .cells q n = none) (key : Key) :
+    lookup (Edit.run P {} ops).ex.data ((Edit.run P {} ops).tabs.cid q n, key) = none :=
+  ((nonmember_holds_nothing P lt _ (C02.machine_reachable_ci P lt ho ops hadm).1 q n hm).1 key).1
+
+/-! Non-vacuity (`Edit.dOps`): `Base.f = y * 2`, `Base.y = 1`, `Sub(Base)`; `Sub.f()` is evaluated (2, held
+under identity 1); `del Base.f` – `Sub` has no `f` any more and NOTHING is held; `Base.f` is created
+again (`y * 3`), `Sub.f()` is 3; `del model.Base` – `Sub` has lost `f` again, nothing is held. -/
+example : (Edit.run Edit.eP {} (Edit.dOps.take 5)).ex.data = [((1, []), .int 2)] ∧
+    (Edit.run Edit.eP {} (Edit.dOps.take 6)).sm.mem .cells ["Sub"] "f" = none ∧
+    (Edit.run Edit.eP {} (Edit.dOps.take 6)).ex.data = [] ∧
+    (Edit.run Edit.eP {} (Edit.dOps.take 6)).ex.gn = [] ∧
+    (Edit.run Edit.eP {} (Edit.dOps.take 8)).ex.data = [((1, []), .int 3)] ∧
+    (Edit.run Edit.eP {} Edit.dOps).sm.mem .cells ["Sub"] "f" = none ∧
+    (Edit.run Edit.eP {} Edit.dOps).ex.data = [] ∧ (Edit.run Edit.eP {} Edit.dOps).ex.gn = [] := by
+  decide
+
+example : Edit.CIW Edit.eP Exec.idLt (Edit.run Edit.eP {} Edit.dOps) :=
+  (C02.machine_reachable_ci Edit.eP Exec.idLt Exec.idLt_strict Edit.dOps Edit.dOps_admissible).1
+
+example (key : Key) : lookup (Edit.run Edit.eP {} Edit.dOps).ex.data
+    ((Edit.run Edit.eP {} Edit.dOps).tabs.cid ["Sub"] "f", key) = none :=
+  reachable_nonmembers_hold_nothing Edit.eP Exec.idLt Exec.idLt_strict Edit.dOps Edit.dOps_admissible
+    ["Sub"] "f" (by decide) key
+
+end combined
+
 end MxModel.C13
